@@ -14,10 +14,10 @@ def layouts(draw, big=False, jsrun=False):
     lfs = draw(st.sampled_from([0, 100, 100, 1000]))
     mem = draw(st.sampled_from([0, 0, 128, 1024]))
     bc, bg = [], []
-    if not jsrun and draw(st.integers(0, 3)) == 0 and c > 1:
+    if draw(st.integers(0, 3)) == 0 and c > 1:
         bc = draw(st.lists(st.integers(0, c - 1), min_size=1, max_size=min(3, c - 1),
                            unique=True))
-    if not jsrun and g and draw(st.integers(0, 4)) == 0:
+    if g and draw(st.integers(0, 4)) == 0:
         bg = draw(st.lists(st.integers(0, g - 1), min_size=1, max_size=max(1, g - 1),
                            unique=True))
     return {'nodes': n, 'cores': c, 'gpus': g, 'lfs': lfs, 'mem': mem,
@@ -79,9 +79,17 @@ def task_specs(draw, layout, light=False, allow_bad=True, jsrun=False, heavy=Fal
 @st.composite
 def histories(draw, max_ops=40, big=False, cls='continuous', scattered=None,
               app=True, light=False, named_env=False, allow_bad=True, heavy=False, colo=False,
-              gpu_focus=False):
+              gpu_focus=False, blocked_focus=False):
     jsrun = (cls == 'jsrun')
     layout = draw(layouts(big=big, jsrun=jsrun))
+    if blocked_focus:
+        # blocked cores (and GPUs) on every node, in the middle of the free ones
+        layout['cores'] = max(layout['cores'], 4)
+        if not layout['blocked_cores']:
+            layout['blocked_cores'] = draw(st.lists(st.integers(0, layout['cores'] - 2), min_size=1,
+                                                    max_size=2, unique=True))
+        if layout['gpus'] >= 2 and not layout['blocked_gpus'] and draw(st.booleans()):
+            layout['blocked_gpus'] = [draw(st.integers(0, layout['gpus'] - 1))]
     if heavy:
         layout['lfs'] = layout['lfs'] or 1000
         layout['mem'] = layout['mem'] or 1024
